@@ -63,12 +63,17 @@ pub struct ExecOut {
     pub trace: Vec<String>,
     #[serde(default)]
     pub schedule_exhausted: bool,
+    /// merged statistics of all scenarios executed (worlds use this)
+    #[serde(default)]
+    pub stats: Option<crate::sched::RunStats>,
+    #[serde(default)]
+    pub sched_hashes: Vec<u64>,
 }
 
 /// Execute a replay file in THIS process (callers make sure the process is fresh).
 pub fn exec_file_here(f: &ReplayFile, mode: &str, trace: bool) -> ExecOut {
     crate::ops::quiet_panics();
-    let mut out = ExecOut { scenario_index: None, violation: None, decisions: Vec::new(), log_hashes: Vec::new(), harness_error: None, trace: Vec::new(), schedule_exhausted: false };
+    let mut out = ExecOut { scenario_index: None, violation: None, decisions: Vec::new(), log_hashes: Vec::new(), harness_error: None, trace: Vec::new(), schedule_exhausted: false, stats: None, sched_hashes: Vec::new() };
     for (i, sc) in f.scenarios.iter().enumerate() {
         let list = f.decisions.get(i).map(|d| unrle(d)).unwrap_or_default();
         let schedule = match mode {
@@ -80,6 +85,16 @@ pub fn exec_file_here(f: &ReplayFile, mode: &str, trace: bool) -> ExecOut {
         let r: RunOut = run(sc, schedule, trace);
         out.decisions.push(rle(&r.decisions));
         out.log_hashes.push(r.log_hash);
+        out.sched_hashes.push(r.sched_hash);
+        match out.stats.as_mut() {
+            Some(s) => crate::batch::merge_stats(s, &r.stats),
+            None => {
+                let mut s = r.stats.clone();
+                s.states.clear();
+                s.transitions.clear();
+                out.stats = Some(s);
+            }
+        }
         if trace {
             out.trace.push(format!("--- scenario {} (seed {})", i, sc.seed));
             out.trace.extend(r.trace);
@@ -300,29 +315,30 @@ impl Shrinker {
             }
             j += 1;
         }
-        // 4. repeats: 1 if possible, else halve
+        // 4. repeats: 1 if possible, else binary search for the smallest count that still fails
         for t in 0..best.scenarios[last].threads.len() {
             for s in 0..best.scenarios[last].threads[t].steps.len() {
-                loop {
-                    let r = best.scenarios[last].threads[t].steps[s].repeat;
-                    if r <= 1 {
-                        break;
-                    }
-                    let mut done = true;
-                    for nr in [1, r / 2, r - r / 8 - 1] {
-                        if nr >= r || nr == 0 {
-                            continue;
-                        }
-                        let mut c = best.clone();
-                        c.scenarios[last].threads[t].steps[s].repeat = nr;
-                        if let Some(ok) = self.test(&c) {
+                let r = best.scenarios[last].threads[t].steps[s].repeat;
+                if r <= 1 {
+                    continue;
+                }
+                let mut c = best.clone();
+                c.scenarios[last].threads[t].steps[s].repeat = 1;
+                if let Some(ok) = self.test(&c) {
+                    best = ok;
+                    continue;
+                }
+                let (mut lo, mut hi) = (1u32, r); // lo does not reproduce, hi does
+                while hi - lo > 1 {
+                    let mid = lo + (hi - lo) / 2;
+                    let mut c = best.clone();
+                    c.scenarios[last].threads[t].steps[s].repeat = mid;
+                    match self.test(&c) {
+                        Some(ok) => {
                             best = ok;
-                            done = false;
-                            break;
+                            hi = mid;
                         }
-                    }
-                    if done {
-                        break;
+                        None => lo = mid,
                     }
                 }
             }
